@@ -50,7 +50,7 @@ def units(tier, seed):
         u["kind"] = "transitions"
     for sid, fam, size in [("basic", "blocks", 5 if q else 6), ("list", "astral", 6 if q else 7),
                            ("basic", "inline_s", 4 if q else 5), ("topmarks", "topmarks", 4 if q else 5),
-                           ("list", "lists", 12 if q else 14), ("attrs", "attrs_sub", 3)]:
+                           ("list", "lists", 12 if q else 14), ("attrs", "attrs_sub", 3), ("basic", "lowbyte", 5)]:
         nb = 8 if q else 16
         for b in range(nb):
             out.append({"kind": "pairs", "sid": sid, "family": fam, "size": size, "block": b, "nblocks": nb,
